@@ -228,6 +228,8 @@ impl<'env> Executor<'env> {
         mut stack: Stack,
         mut pc: u32,
     ) -> Result<Option<Value>, Error> {
+        #[cfg(feature = "verif_hooks")]
+        let _verif_activation = crate::verif_hooks::recursion::enter(state.ctx.depth());
         let initial_auto_escape = state.auto_escape;
         let undefined_behavior = state.undefined_behavior();
         let strict_undefined = matches!(
